@@ -41,6 +41,7 @@ func init() {
 		Title:       "Settle preserves the filled region and returns a canonical simple path",
 		Explanation: "Decides: FillRule.Fills is definite on the sign×parity classes of the winding number and equals each rule's definition, with a case for all four rules; the Settle entry points pass nil, opSettle and their own fill rule to the sweep; opSettle membership is the subject's own fill on each side; settling an empty path yields the empty path. NOT decided: canonical form, hole orientation, idempotence, the sweep.",
 		Run: func(c *core.Ctx, r *core.Report) {
+			E9EndpointPair(c, r)
 			E4InsertAlias(c, r, []string{""})
 			E9AbsorbedLink(c, r)
 			E9AbsorbConserves(c, r)
@@ -77,6 +78,7 @@ func init() {
 		Title:       "Length, SplitAt and Reverse are consistent views of the same curve",
 		Explanation: "Decides the encoding clauses Length/SplitAt/Reverse/Split depend on, for every path: in every decoder loop of the package (incl. SplitAt, Reverse, Split, Length) a command cursor of one path only indexes that path's data; payload offsets stay inside the record of the command being decoded; every record built (incl. the ones Reverse emits) has the command at both ends and the format's length; cmdLen agrees with the format. NOT decided: quadrature, arc-length inversion, involution, winding negation.",
 		Run: func(c *core.Ctx, r *core.Report) {
+			E9ChordShortcut(c, r)
 			E3ArcShortcut(c, r)
 			E2CmdLenTable(c, r)
 			E2CursorDomain(c, r, nil)
@@ -134,6 +136,8 @@ func init() {
 		Explanation: "Decides one clause only, 'terminates with a result for any sequence of items' in its no-panic part: every index of the caller-supplied item slice in Linebreak and the linebreaker methods is dominated by a bound check or is an index parameter whose bound is established at every call site (interprocedural index contract), and no explicit panic is reachable from Linebreak. NOT decided: legality of breakpoints, feasibility, optimality, relaxation of the tolerance, termination.",
 		Assumptions: []string{"lb.items[active.Position] (a position stored earlier from a checked index) is listed as unclassified, not decided"},
 		Run: func(c *core.Ctx, r *core.Report) {
+			E4ZeroGuardIsDivisor(c, r, "text")
+			E4ForcedBreakForgets(c, r)
 			E4LinebreakGuards(c, r)
 			E4AllocCoversIndex(c, r)
 			E4ForcedBreakDeactivates(c, r)
@@ -233,6 +237,7 @@ func init() {
 		Explanation: "Decides, for every canvas: (1) 'rendering leaves the canvas, its paths and its gradients unchanged': RenderPath/RenderText/RenderImage of all four back-ends, Canvas.RenderTo/RenderViewTo and rasterizer.Draw write no memory reachable from the path, style (dash array, gradient stops, patterns), text, image or canvas arguments (interprocedural effect analysis on SSA with callback-invocation summaries); (2) the rasterizer reads every Style field including the fill rule; (3) every scanner emission maps coordinates as (x*dpmm, height-y*dpmm) and the image size is width x height x resolution in both constructors. NOT decided: pixel coverage, anti-aliasing, later-draws-cover-earlier, determinism of the scanner library.",
 		Assumptions: []string{"standard-library functions not in the mutator table are pure (listed in coverage.external_assumed)", "results of calls through function-typed parameters are fresh objects", "third-party Go dependencies are analysed from source, cgo is not"},
 		Run: func(c *core.Ctx, r *core.Report) {
+			E6SkipBoundsCover(c, r)
 			E1Renderers(c, r)
 			E12Units(c, r)
 			E12ColorSpaceOnce(c, r)
@@ -355,6 +360,7 @@ func init() {
 		Title:       "Text layout places every character once, inside the box, on ordered lines",
 		Explanation: "Decides two structural clauses. (1) the structural part of 'lines are stacked monotonically by their line heights … Text.Bounds/Heights enclose all spans': a line's top/ascent/descent/bottom are pure component-wise math.Max folds over its spans (each accumulator folded with the same-named component of FontFace.heights(), inline objects' ascent/descent feeding the right pair), and Text.Heights combines the first line's ascent with the last line's descent. (2) a necessary condition of 'right-aligned lines end at the width, centred lines are centred, no line extends beyond the box unless Overflows is reported': the width the line breaker records for a feasible break includes the width of the penalty (the hyphen shown at the break), by the same guarded addition the fitting computation uses. NOT decided: everything else — that every character appears exactly once and in order, glyph/byte index bookkeeping, glue stretching, alignment, bidi reordering, Overflows, which are arithmetic over runtime arrays with no structural clause.",
 		Run: func(c *core.Ctx, r *core.Report) {
+			E3TextBoundsFold(c, r)
 			E3LineHeights(c, r)
 			E11BreakWidth(c, r)
 			E11SpanShift(c, r)
@@ -421,6 +427,7 @@ func init() {
 		Run: func(c *core.Ctx, r *core.Report) {
 			E8Units(c, r)
 			E11SweepFlip(c, r)
+			E11ConicFrame(c, r)
 			E11RotationMerge(c, r)
 			E11MatrixInverse(c, r)
 			E11OmittedTerm(c, r)
